@@ -8,7 +8,7 @@ import ast, copy, json, os, random, subprocess, sys, concurrent.futures as cf
 REPO = '/repo'; SCR = '/tmp/scratch/mut'
 FILE_PROPS = {
     'expressions/trivia.py': ['C01', 'C03', 'C06', 'C18'], 'expressions/comment.py': ['C03', 'C06', 'C18'], 'expressions/binding.py': ['C01', 'C03', 'C12', 'C18'],
-    'expressions/set.py': ['C04', 'C05', 'C14', 'C13', 'C01'], 'expressions/list.py': ['C01', 'C13', 'C18', 'C20'], 'expressions/let.py': ['C01', 'C09', 'C18'],
+    'expressions/set.py': ['C04', 'C05', 'C14', 'C13', 'C01', 'C10', 'C11'], 'expressions/list.py': ['C01', 'C13', 'C18', 'C20'], 'expressions/let.py': ['C01', 'C09', 'C18'],
     'expressions/with_statement.py': ['C01', 'C03', 'C18'], 'expressions/assertion.py': ['C01', 'C03', 'C15'], 'expressions/if_expression.py': ['C01', 'C06', 'C18'],
     'expressions/binary.py': ['C01', 'C03', 'C15'], 'expressions/inherit.py': ['C01', 'C03', 'C18'], 'expressions/function/definition.py': ['C01', 'C03', 'C18'],
     'expressions/function/call.py': ['C01', 'C18', 'C20'], 'expressions/parenthesis.py': ['C01', 'C18'], 'expressions/select.py': ['C01', 'C03'],
